@@ -777,6 +777,7 @@ def main():
             status["ok"] = False
             status["errors"].append("%s: %s" % (fname, e))
     status["changed"] = changed
+    status["files"] = {f: not any(e.startswith(f + ":") for e in status["errors"]) for f in ("Tables.v", "Layouts.v", "Inventory.v")}
     status["fn_hashes"] = hashes
     json.dump(status, sys.stdout, indent=1)
     print()
